@@ -23,7 +23,10 @@ def dataset_values(did, nvals, nrows_per=1, extra_cols=True):
 def gen(rng, tier):
     lines, cases = [], []
     k = 0
-    sizes_mem = [0, 1, 999, 1000, 1001, 2500] if tier == "quick" else [0, 1, 2, 998, 999, 1000, 1001, 1002, 1999, 2000, 2001, 2500, 5001]
+    # n values of column a (+ 3 of column b): the number of BITMAPS is what the batching counts,
+    # so both n and n+3 are placed on and around the multiples of 1000
+    sizes_mem = [0, 1, 995, 996, 997, 998, 999, 1000, 1001, 1996, 1997, 2500] if tier == "quick" else \
+        [0, 1, 2, 994, 995, 996, 997, 998, 999, 1000, 1001, 1002, 1995, 1996, 1997, 1998, 1999, 2000, 2001, 2500, 2996, 2997, 5001]
     for n in sizes_mem:
         ds = dataset_values("m%d" % n, n)
         lines += ds.lines()
